@@ -103,6 +103,9 @@ pub fn check_real(e: End, wbits: usize, backend: &str, finisher: &str, ops: &[WO
     if backend == "slice" {
         want.resize(cap * wbits / 8, 0);
     }
+    if backend == "vecpre" && want.len() < cap * wbits / 8 {
+        want.resize(cap * wbits / 8, crate::wr::VECPRE_BYTE);
+    }
     if fo.bytes != want {
         return Err(("bytes".into(), format!("{} / {}: final image expected {} got {}", backend, finisher, hex(&want), hex(&fo.bytes))));
     }
@@ -175,7 +178,9 @@ pub fn explore(run: &WrRun) -> Outcome {
             for backend in REAL_BACKENDS {
                 for finisher in FINISHERS {
                     combo += 1;
-                    if is_leaf && run.leaf_combos < 28 && (combo + id as usize * 7) % 28 >= run.leaf_combos {
+                    // leaf_combos is expressed in 28ths of the (backend, finisher) product (40 pairs)
+                    const NCOMBO: usize = REAL_BACKENDS.len() * FINISHERS.len();
+                    if is_leaf && run.leaf_combos < 28 && (combo + id as usize * 7) % NCOMBO >= run.leaf_combos * NCOMBO / 28 + 1 {
                         continue;
                     }
                     out.cov.traces_validated += 1;
